@@ -232,6 +232,27 @@ func init() {
 			})
 			return nil
 		},
+		// vrtQuiesce(): let every library thread run until all of them are blocked or finished
+		"vrtQuiesce": func(fr *frame, a []Value) Value {
+			th := fr.th
+			th.visible = false
+			th.block("vrtQuiesce", func() bool {
+				for _, t := range th.eng.threads {
+					if t != th && t.enabled() {
+						return false
+					}
+				}
+				return true
+			})
+			return nil
+		},
+		// harness clock (ns): vrtClock() reads, vrtClockSet(ns) sets; time.Now() returns it
+		"vrtClock": func(fr *frame, a []Value) Value { return fr.th.eng.clock },
+		"vrtClockSet": func(fr *frame, a []Value) Value {
+			fr.th.eng.clock = a[0].(*Term)
+			return nil
+		},
+		"vrtTimeNS": func(fr *frame, a []Value) Value { return timeNS(a[0]) },
 		"vrtSymbolic": func(fr *frame, a []Value) Value { return fr.th.eng.pool.True },
 		"vrtNote": func(fr *frame, a []Value) Value {
 			fr.th.eng.note(strArg(a[0]))
